@@ -314,6 +314,53 @@ def _padding(TD, t, NAMES, SPEC):
     return alts == {("comp", SPEC, 3), ("list",)}
 
 
+def r2_only_added(program, rep):
+    """Callbacks registered on a context are only ever added (run on its own
+    so that it is decided whatever form the loop in __exit__ takes)."""
+    ex = program.get(CX + ":Context.__exit__")
+    # callbacks registered on a block are only ever added to: the list is
+    # created by __init__ and otherwise only appended to / extended
+    ctx_cls = CX + ":Context"
+    okadd = True
+    where_ = None
+    n_add = 0
+    for q, m_ in program.functions(CX):
+        if not q.startswith("Context.") or q.count(".") != 1:
+            continue
+        for n_ in ast.walk(m_):
+            tg = n_.targets if isinstance(n_, ast.Assign) else \
+                [n_.target] if isinstance(n_, (ast.AugAssign,
+                                               ast.AnnAssign)) else []
+            for t_ in tg:
+                b__ = t_
+                while isinstance(b__, ast.Subscript):
+                    b__ = b__.value
+                if chain(b__) == "self._before_close" and \
+                        m_.name != "__init__" and not (
+                            isinstance(n_, ast.AugAssign) and
+                            isinstance(n_.op, ast.Add)):
+                    okadd = False
+                    where_ = n_
+            if isinstance(n_, ast.Call) and \
+                    isinstance(n_.func, ast.Attribute) and \
+                    chain(n_.func.value) == "self._before_close":
+                if n_.func.attr in ("append", "extend"):
+                    n_add += 1
+                elif n_.func.attr in ("clear", "pop", "remove", "insert",
+                                      "__setitem__", "__delitem__"):
+                    okadd = False
+                    where_ = n_
+    rep.check(okadd and n_add >= 1, "C18-R2", CX + ":Context",
+              "callbacks registered on a context block are only ever added "
+              "(the stop signal registered by application() cannot be "
+              "dropped by a later registration)",
+              construct="callbacks only added", node=where_ or ex,
+              fail="the list of before-close callbacks is replaced or "
+                   "shrunk outside __init__: a later before_close() drops "
+                   "the callback that stops the application when its block "
+                   "is left")
+
+
 def r2_pairing(program, rep):
     ex = program.get(CX + ":Context.__exit__")
     inst = qual(ex)
@@ -366,47 +413,7 @@ def r2_pairing(program, rep):
                    "before the pop (e.g. skipped when the block raised): an "
                    "application block is left without stopping the "
                    "application")
-    # callbacks registered on a block are only ever added to: the list is
-    # created by __init__ and otherwise only appended to / extended
-    ctx_cls = CX + ":Context"
-    okadd = True
-    where_ = None
-    n_add = 0
-    for q, m_ in program.functions(CX):
-        if not q.startswith("Context.") or q.count(".") != 1:
-            continue
-        for n_ in ast.walk(m_):
-            tg = n_.targets if isinstance(n_, ast.Assign) else \
-                [n_.target] if isinstance(n_, (ast.AugAssign,
-                                               ast.AnnAssign)) else []
-            for t_ in tg:
-                b__ = t_
-                while isinstance(b__, ast.Subscript):
-                    b__ = b__.value
-                if chain(b__) == "self._before_close" and \
-                        m_.name != "__init__" and not (
-                            isinstance(n_, ast.AugAssign) and
-                            isinstance(n_.op, ast.Add)):
-                    okadd = False
-                    where_ = n_
-            if isinstance(n_, ast.Call) and \
-                    isinstance(n_.func, ast.Attribute) and \
-                    chain(n_.func.value) == "self._before_close":
-                if n_.func.attr in ("append", "extend"):
-                    n_add += 1
-                elif n_.func.attr in ("clear", "pop", "remove", "insert",
-                                      "__setitem__", "__delitem__"):
-                    okadd = False
-                    where_ = n_
-    rep.check(okadd and n_add >= 1, "C18-R2", CX + ":Context",
-              "callbacks registered on a context block are only ever added "
-              "(the stop signal registered by application() cannot be "
-              "dropped by a later registration)",
-              construct="callbacks only added", node=where_ or ex,
-              fail="the list of before-close callbacks is replaced or "
-                   "shrunk outside __init__: a later before_close() drops "
-                   "the callback that stops the application when its block "
-                   "is left")
+
     # returns falsy: exceptions propagate
     rets = [r for r in returns_of(ex) if r.value is not None and not (
         isinstance(r.value, ast.Constant) and not r.value.value)]
@@ -965,10 +972,22 @@ def check(program, rep):
     program.module(BMP)
     rep.guard("C18-R1", r1_decorator, program, rep)
     rep.guard("C18-R2", r2_pairing, program, rep)
+    rep.guard("C18-R2", r2_only_added, program, rep)
     rep.guard("C18-R3", r3_roles, program, rep)
     rep.guard("C18-R4", r4_satisfiable, program, rep)
     rep.guard("C18-R5", r5_connection, program, rep)
     rep.guard("C18-R6", r6_link, program, rep)
+    # the destination reaches the wire in the documented header bytes and
+    # widths (C15-R1/R2: a core number needs all five bits of its field)
+    from . import C15
+    from ..constfold import Folder as _Folder
+
+    def wire_rule(program, rep):
+        folder = _Folder(program)
+        res = C15.r1_encoder(program, folder, rep)
+        if res:
+            C15.r2_decoder(program, folder, rep, *res)
+    rep.guard(["C15-R1", "C15-R2"], wire_rule, program, rep)
     import sys
     rep.assume("interpreter = %d.%d (the one the suite runs under)" %
                sys.version_info[:2])
